@@ -106,7 +106,63 @@ def run(F, R, tier):
 
     # ------------------------------------------------------------------ R2 generate
     r2 = R.rule("C15-R2", "T2+T3", "generate: key/alg compatibility ✓ dominates key creation; alg = requested alg, kid = RFC 7638 thumbprint, set before the public projection is returned")
-    for ty in (JMS, SH):
+    fn = impl_fn(F, JMS, JS, "generate")
+    if r2.require(fn is not None, (JMS, "generate", "ANCHOR"), "generate of JwkMemStore not found"):
+        # by abstract evaluation on the map model: an accepting path checked key/alg compatibility for the requested pair, set
+        # alg = name(requested alg) and then kid = thumbprint of that same key before projecting it, stored exactly (fresh id → that
+        # key) and returns JwkGenOutput::new(that id, to_public(that key)); a rejecting path leaves the map alone
+        GOPQ = (r"MemStoreKeyType as core::convert::TryFrom<.*>>::try_from$|check_key_alg_compatibility$|SecretKey::(generate|public_key)$|random_key_id$|encode_jwk$|"
+                r"Jwk::(set_alg|set_kid|thumbprint_sha256_b64|to_public)$|JwsAlgorithm::name$|JwkGenOutput::new$")
+        ev = sym.Evaluator(F, opaque=GOPQ, inline_depth=6, concrete_vec=True)
+
+        def fin(p_, a):
+            p_.final = CM.final_map(a, "jwk_store")
+        try:
+            paths = ev.explore(fn, args=lambda: [CM.store(JMS, "jwk_store"), CM.P("key_type"), CM.P("alg")], finalize=fin)
+        except (sym.Abort, sym.TooManyPaths) as e:
+            paths = []
+            r2.fail((fn, "not-evaluable"), "JwkMemStore::generate could not be evaluated: %s" % e)
+        n_ok = 0
+        def collides(q):
+            """the world in which the freshly drawn id equals an id already in the store (freshness of random ids is not decided here)"""
+            return any(a[0] == "eq" and c and any("random_key_id" in sym.fmt(x) for x in (a[1], a[2])) for (a, c, _, _) in q.decisions)
+        for q in paths:
+            if isinstance(q.ret, sym.V) and q.ret.name == "Panic":
+                continue       # the `expect` on to_public(): C05's business (REVIEWED: OKP keys always project)
+            if collides(q):
+                continue
+            if not q.complete or getattr(q, "final", None) is None:
+                r2.fail((fn, "not-evaluable"), "JwkMemStore::generate: a path could not be evaluated to the end (%s)" % q.note)
+                continue
+            added = {k: v for k, v in q.final.items() if k not in CM.INITIAL}
+            kept = all(q.final.get(k) == v for k, v in CM.INITIAL.items())
+            if SR.is_failure(q.ret):
+                r2.require(not added and kept, (fn, "store-on-error"), "generate returns an error after changing the store")
+                continue
+            n_ok += 1
+            cc = [e for e in q.calls(r"check_key_alg_compatibility$") if q.succeeded(e) is True and SR.pure(e.args[1], CM.P("alg").t)]
+            r2.require(bool(cc), (fn, "compat"), "generate can succeed without check_key_alg_compatibility(key_type, alg) for the requested algorithm")
+            enc = q.calls(r"encode_jwk$")
+            sa, sk, tp, pub, rk = q.calls(r"Jwk::set_alg$"), q.calls(r"Jwk::set_kid$"), q.calls(r"Jwk::thumbprint_sha256_b64$"), q.calls(r"Jwk::to_public$"), q.calls(r"random_key_id$")
+            if not r2.require(len(enc) == 1 and len(sa) == 1 and len(sk) == 1 and len(pub) == 1 and len(rk) == 1 and tp, (fn, "alg-kid"), "generate does not set alg and kid exactly once on the encoded key"):
+                continue
+            J = enc[0].result.t
+            nm = sym.term(sa[0].args[1])
+            r2.require(SR.pure(sa[0].args[0], J) and isinstance(nm, tuple) and nm[:1] == ("call",) and nm[1].endswith("JwsAlgorithm::name") and SR.pure(nm[2][0], CM.P("alg").t), (fn, "alg-source"), "the JWK's alg is not the requested algorithm: %s" % sym.fmt(nm))
+            r2.require(SR.pure(sk[0].args[0], J) and any(SR.pure(sk[0].args[1], t_.result.t) and SR.pure(t_.args[0], J) for t_ in tp), (fn, "kid-source"), "the JWK's kid is not the SHA-256 thumbprint of the key being returned")
+            order = [e for e in q.events if e in (sa[0], sk[0], pub[0]) or e in tp]
+            names_ = [e.name for e in order]
+            r2.require(names_.index("set_alg") < names_.index("thumbprint_sha256_b64") < names_.index("set_kid") < names_.index("to_public"), (fn, "order"), "alg/kid are not set (alg before the thumbprint) before the public projection is taken: %s" % names_)
+            r2.require(SR.pure(pub[0].args[0], J), (fn, "returns-public"), "the key projected is not the key generated")
+            KID = rk[0].result.t
+            stored = [(k, v) for k, v in added.items()]
+            r2.require(kept and len(stored) == 1 and SR.pure(stored[0][1], J) and stored[0][0] == sym.fmt(KID), (fn, "stores"), "generate does not store exactly (fresh key id → the generated key): %s" % {k: sym.fmt(v) for k, v in added.items()})
+            out = q.ret.fields[0] if isinstance(q.ret, sym.V) and q.ret.fields else None
+            ot = sym.term(out) if out is not None else None
+            r2.require(isinstance(ot, tuple) and ot[:1] == ("call",) and ot[1].endswith("JwkGenOutput::new") and SR.pure(ot[2][0], KID) and SR.derives(ot[2][1], pub[0].result.t), (fn, "returns-public"), "generate does not return JwkGenOutput::new(the stored id, to_public(the stored key))")
+        r2.site("JwkMemStore::generate: compat ✓, alg/kid set in order, (fresh id → key) stored, public projection returned on %d accepting path(s)" % n_ok)
+        r2.require(n_ok >= 1 or not paths, (fn, "never-succeeds"), "JwkMemStore::generate has no accepting path")
+    for ty in (SH,):
         fn = impl_fn(F, ty, JS, "generate")
         if not r2.require(fn is not None, (ty, "generate", "ANCHOR"), "generate of %s not found" % L.short(ty)):
             continue
@@ -132,11 +188,59 @@ def run(F, R, tier):
             # alg is set before the thumbprint / projection are taken (statement order)
             order = [n for n in H.walk(H.root(h)) if n.get("k") == "mcall" and n["name"] in ("set_alg", "set_kid", "to_public")]
             r2.require([n["name"] for n in order][:2] == ["set_alg", "set_kid"], (fn, "order"), "alg/kid are not set before the public projection is taken")
-    r2.floor(4)
+    r2.floor(3)
 
     # ------------------------------------------------------------------ R3 insert
     r3 = R.rule("C15-R3", "T2+T9", "insert: key type ✓, is_private() ✓, alg present ∧ parsed ∧ compatible ✓ all dominate the store write; no parse error is swallowed")
-    for ty, write_re in ((JMS, r"HashMap(<.*>)?::insert$"), (SH, r"write_secret$")):
+    fn = impl_fn(F, JMS, JS, "insert")
+    if r3.require(fn is not None, (JMS, "insert", "ANCHOR"), "insert of JwkMemStore not found"):
+        IOPQ = r"MemStoreKeyType as core::convert::TryFrom<.*>>::try_from$|check_key_alg_compatibility$|random_key_id$|Jwk::(is_private|is_public|alg)$|FromStr>::from_str$|FromStr::from_str$"
+        ev = sym.Evaluator(F, opaque=IOPQ, inline_depth=6, concrete_vec=True)
+
+        def fin3(p_, a):
+            p_.final = CM.final_map(a, "jwk_store")
+        try:
+            paths = ev.explore(fn, args=lambda: [CM.store(JMS, "jwk_store"), CM.P("jwk")], finalize=fin3)
+        except (sym.Abort, sym.TooManyPaths) as e:
+            paths = []
+            r3.fail((fn, "not-evaluable"), "JwkMemStore::insert could not be evaluated: %s" % e)
+        n_ok = 0
+        JW = CM.P("jwk").t
+        for q in paths:
+            if any(a[0] == "eq" and c and any("random_key_id" in sym.fmt(x) for x in (a[1], a[2])) for (a, c, _, _) in q.decisions):
+                continue       # the fresh id collides with a stored one: freshness of random ids is not decided here
+            if not q.complete or getattr(q, "final", None) is None:
+                r3.fail((fn, "not-evaluable"), "JwkMemStore::insert: a path could not be evaluated to the end (%s)" % q.note)
+                continue
+            added = {k: v for k, v in q.final.items() if k not in CM.INITIAL}
+            kept = all(q.final.get(k) == v for k, v in CM.INITIAL.items())
+            if SR.is_failure(q.ret):
+                r3.require(not added and kept, (fn, "write"), "insert returns an error after changing the store")
+                continue
+            n_ok += 1
+            where = q.describe()[-160:]
+            kt = [e for e in q.calls(r"MemStoreKeyType as core::convert::TryFrom<.*>>::try_from$") if q.succeeded(e) is True and SR.pure(e.args[0], JW)]
+            r3.require(bool(kt), (fn, "key-type"), "a JWK of an unsupported key type can be inserted")
+            priv = [e for e in q.calls(r"Jwk::is_private$") if q.succeeded(e) is True and SR.pure(e.args[0], JW)]
+            r3.require(bool(priv), (fn, "private"), "a JWK that is not fully private can be inserted (`!jwk.is_private()` guard missing or weakened) — …%s" % where)
+            al = [e for e in q.calls(r"Jwk::alg$") if SR.pure(e.args[0], JW) and q.variant.get(e.result.t) == "Some"]
+            r3.require(bool(al), (fn, "alg-required"), "a JWK without alg is not rejected")
+            fs = [e for e in q.calls(r"from_str$") if q.succeeded(e) is True and any(SR.pure(e.args[0], ("payload", a_.result.t, "Some", 0)) for a_ in al)]
+            r3.require(bool(fs), (fn, "alg-parsed"), "the store write is reachable without the alg having been parsed successfully (an unparsable alg must be an error)")
+            cc = [e for e in q.calls(r"check_key_alg_compatibility$") if q.succeeded(e) is True and any(SR.pure(e.args[1], ("payload", f_.result.t, "Ok", 0)) for f_ in fs) and any(SR.pure(e.args[0], ("payload", k_.result.t, "Ok", 0)) for k_ in kt)]
+            r3.require(bool(cc), (fn, "alg-compatible"), "the store write is reachable without check_key_alg_compatibility(key type of the JWK, its parsed alg) having succeeded")
+            rk = q.calls(r"random_key_id$")
+            okw = kept and len(added) == 1 and len(rk) == 1 and list(added.values())[0] == JW and list(added.keys())[0] == sym.fmt(rk[0].result.t)
+            r3.require(okw, (fn, "write"), "insert does not store exactly (fresh key id → the given JWK): %s" % {k: sym.fmt(v) for k, v in added.items()})
+            out = q.ret.fields[0] if isinstance(q.ret, sym.V) and q.ret.fields else None
+            r3.require(out is not None and rk and SR.pure(out, rk[0].result.t), (fn, "returns"), "insert does not return the id it stored the key under")
+        # a failing alg parse is an error, not swallowed
+        for q in paths:
+            if q.complete and any(q.succeeded(e) is False for e in q.calls(r"from_str$")):
+                r3.require(SR.is_failure(q.ret), (fn, "alg-parse-result", "swallowed"), "the result of parsing the alg is swallowed instead of being propagated")
+        r3.site("JwkMemStore::insert: key type ✓, is_private ✓, alg present ∧ parsed ∧ compatible ✓, (fresh id → jwk) stored on %d accepting path(s)" % n_ok)
+        r3.require(n_ok >= 1 or not paths, (fn, "never-succeeds"), "JwkMemStore::insert has no accepting path")
+    for ty, write_re in ((SH, r"write_secret$"),):
         fn = impl_fn(F, ty, JS, "insert")
         if not r3.require(fn is not None, (ty, "insert", "ANCHOR"), "insert of %s not found" % L.short(ty)):
             continue
@@ -165,7 +269,7 @@ def run(F, R, tier):
                 use = c01.result_use(body, bi)
                 r3.site("%s::insert: from_str result %s" % (L.short(ty), use), t["sp"])
                 r3.require(use in ("propagated", "returned"), (fn, "alg-parse-result", use), "the result of parsing the alg is %s instead of being propagated" % use, t["sp"])
-    r3.floor(4)
+    r3.floor(3)
 
     # ------------------------------------------------------------------ R4 the stores against a map model
     r4 = R.rule("C15-R4", "T8+T4", "the mem stores evaluated abstractly on a concrete map {k0→v0, k1→v1}: insert_key_id refuses a present key and adds exactly (key, value) otherwise; get_key_id/delete_key_id/delete/sign report KeyIdNotFound/KeyNotFound for an absent id and otherwise use/remove exactly the entry stored under it; exists answers membership; nothing else in the map changes; the Stronghold key-id store reports a missing id")
